@@ -12,6 +12,7 @@ J == ph = 1
 R == Recs[i]
 IsOp == "op" \in DOMAIN R
 IsSrv == "order" \in DOMAIN R
+IsFlood == "flood" \in DOMAIN R
 All(q, v) == \A k \in 1..Len(q) : q[k] = v
 
 \* Cancel!Ends: once interrupted, the call returns (the watchdog stands for "bounded delay")
@@ -30,6 +31,8 @@ C09_StopServes == J => (Steered => R.served)
 C09_StopDone == J => (Steered => R.srvdone = R.conns)
 C09_StopOnCloseOnce == J => (Steered => \A k \in 1..Len(R.srvonclose) : All(R.srvonclose[k], 1))
 C09_ClientEnds == J => (Steered => (R.cliret = R.clients /\ R.clidone = R.clients /\ All(R.clionclose, 1)))
+\* closing while the handler is busy, the receive queue is full and the reader is parked handing a message over
+C09_FloodClose == J => (IsFlood /\ R.busy => (R.done /\ Len(R.onclose) = 3 /\ All(R.onclose, 1) /\ R.panics = 0))
 \* conformance only: an interrupted call reports an error (nothing was ever answered); callbacks do not run unless closed;
 \* a stream peer notices the server's stop by itself
 K09_ErrReported == J => (IsOp /\ R.reached /\ R.returned /\ R.op # "discover" => R.err)
